@@ -46,6 +46,11 @@ def make_cfg(spec):
     if math.radians(7) >= aH:
         c.simulation.angle_from_limb = 0.5 * aH
     c.detector.radio.snr_threshold = 0.05
+    if alt == 525.5:
+        # target mode: radio signal-to-noise ratios are tiny there, and only with the trigger switched off
+        # (threshold 0) is any radio weight non-zero - otherwise a cut wrongly applied to the radio channel
+        # cannot show in a full run (seeded C14-17)
+        c.detector.radio.snr_threshold = 0.0
     if alt == 33.5:
         # a thrown cone narrower than every shower's effective Cherenkov cone: no event is cut by the cone
         # test of the optical integral (seeded C14-15: the radio integral then re-used the optical factors)
@@ -388,9 +393,10 @@ def run(ctx):
         ("Diffuse", "power", None, 525.0, 150),
     ]
     specs.insert(3, ("Diffuse", "mono", None, 33.5, 300))
+    specs.insert(5, ("Target", "mono", None, 525.5, 2500))
     if T:
         specs = [(m, s, c, a, n) for m in ("Diffuse", "Target") for s in ("mono", "power") for c in (None, "mono", "map") for a in (33.0, 525.0, 2000.0) for n in ((150 if c != "map" else 300) if m == "Diffuse" else 2500,)]
-        specs += [("Diffuse", "mono", None, 33.5, 300), ("Diffuse", "power", "mono", 33.5, 300)]
+        specs += [("Diffuse", "mono", None, 33.5, 300), ("Diffuse", "power", "mono", 33.5, 300), ("Target", "mono", None, 525.5, 2500), ("Target", "power", "map", 525.5, 2500)]
     seeds = [11 + ctx.seed, 12 + ctx.seed] if not T else [11 + ctx.seed, 12 + ctx.seed, 13 + ctx.seed]
     P = []
     for i, sp in enumerate(specs):
